@@ -4,4 +4,6 @@ package checks
 // All maps property ids to their check; the argument is the tier.
 var All = map[string]func(tier string) int{
 	"C01": C01,
+	"C02": C02,
+	"C06": C06,
 }
